@@ -149,6 +149,12 @@ func (p *PKCS7PaddingWriter) Final() error {
 	if unpadding > p.blockSize || unpadding == 0 {
 		return errors.New("非法的PKCS7填充")
 	}
+	for _, c := range b[length-unpadding:] {
+		// PKCS#7: 所有填充字节都必须等于填充长度
+		if int(c) != unpadding {
+			return errors.New("非法的PKCS7填充")
+		}
+	}
 	_, err := p.out.Write(b[:(length - unpadding)])
 	return err
 }
